@@ -114,6 +114,22 @@ def judge(spec, events, death):
         v.bad('alloc=%s:effect=fd-leak' % site, 'workload %s, allocation #%d: descriptors not released' % (spec['w'], spec['k']))
     if e['toks']:
         v.bad('alloc=%s:effect=ptr-not-released' % site, 'workload %s, allocation #%d: pointer value not released' % (spec['w'], spec['k']))
+    # "the call either completes or reports failure through its return value": find the call during which the injected
+    # failure struck; if that call returned its success value, it claims to have completed, so the final tree must be the
+    # one of the fault-free run
+    ref = core._W['opts'].get('ref', {}).get(spec['w'])
+    hit = next((i for i, x in enumerate(events) if x.get('ev') == 'oomhit'), None)
+    if ref and hit is not None:
+        op = events[hit]['op']
+        prev = [x for x in events[:hit] if x.get('ev') in ('r', 'look', 'path', 'print', 'get')]
+        claims_success = bool(prev) and prev[-1].get('ev') == 'r' and prev[-1].get('rc') == 0 and prev[-1].get('op') == op
+        if op in ('init', 'initq'):
+            claims_success = bool(prev) and prev[-1].get('rc') == 0
+        dumps = [json.dumps(x['tree'], sort_keys=True) for x in events if x.get('ev') == 'dump']
+        v.notes.setdefault('ops_hit', set()).add(op)
+        if claims_success and dumps != ref['dumps']:
+            v.bad('alloc=%s:effect=silent-incomplete:during-%s' % (site, op), 'workload %s, allocation #%d (%s) fails during %s: the call returns success, yet the resulting tree differs from the fault-free run (it did not complete and did not say so)' % (
+                spec['w'], spec['k'], site, op))
     bad_rc = [x for x in events if x.get('ev') == 'r' and x.get('rc') not in (0, -1, 1)]
     if bad_rc:
         v.bad('alloc=%s:effect=undocumented-return' % site, 'undocumented return value %r' % bad_rc[:2])
@@ -150,6 +166,7 @@ def run(tier, seed, bindirs):
     lines, sid = schema.emit_schema(DECLS)
     specs = []
     counts = {}
+    ref = {}
     for w in workloads(sid):
         out = core.run_batch(bindirs['asan'], [(0, script({'w': w, 'k': 0}))])
         evs, death = out[0]
@@ -163,7 +180,10 @@ def run(tier, seed, bindirs):
         end = [e for e in evs if e.get('ev') == 'endcase'][0]
         if end['live']:
             raise core.HarnessError('fault-free run of workload %s leaks' % w)
-    res = core.explore('checks.c18', specs, bindirs, chunk=30, opts={'solo_timeout': 60})
+        ref[w] = {'rcs': [(x.get('op'), x.get('rc')) for x in evs if x.get('ev') == 'r'], 'looks': [x.get('pos') for x in evs if x.get('ev') == 'look'],
+                  'paths': [x.get('v') for x in evs if x.get('ev') == 'path'],
+                  'dumps': [json.dumps(x['tree'], sort_keys=True) for x in evs if x.get('ev') == 'dump']}
+    res = core.explore('checks.c18', specs, bindirs, chunk=30, opts={'solo_timeout': 60, 'ref': ref})
     return core.finish(PROP, tier, seed, 'fault_enumeration', res, RULE % len(counts), t0, floor=500, exhaustive=True,
                        assumptions=['only allocation requests issued from confuse.c are failed (the property excludes scanner-internal allocations)',
                                     'one failure per run; later requests succeed'],
